@@ -123,6 +123,8 @@ type Ctx struct {
 	funcs  map[string]string // uninterpreted function name -> declaration
 	funcsO []string
 	hashes map[int][2]uint64
+	varsMemo map[int][]int
+	fnIDs  map[string]int
 	True   *Term
 	False  *Term
 }
@@ -594,6 +596,46 @@ func (c *Ctx) BitsToF(a *Term) *Term {
 		return c.mk(&Term{Op: OpConst, Sort: FP64, C: a.C})
 	}
 	return c.mk(&Term{Op: OpBToF, Sort: FP64, Args: []*Term{a}})
+}
+
+// VarsOf returns the ids of the free variables of t (memoised). An uninterpreted function counts as a
+// pseudo-variable shared by all its applications, so constraints mentioning the same function always
+// fall into the same independence class.
+func (c *Ctx) VarsOf(t *Term) []int {
+	if c.varsMemo == nil {
+		c.varsMemo = map[int][]int{}
+		c.fnIDs = map[string]int{}
+	}
+	if v, ok := c.varsMemo[t.ID]; ok {
+		return v
+	}
+	var out []int
+	switch t.Op {
+	case OpConst:
+	case OpVar:
+		out = []int{t.ID}
+	default:
+		seen := map[int]bool{}
+		if t.Op == OpApply {
+			id, ok := c.fnIDs[t.Name]
+			if !ok {
+				id = -(len(c.fnIDs) + 1)
+				c.fnIDs[t.Name] = id
+			}
+			seen[id] = true
+			out = append(out, id)
+		}
+		for _, a := range t.Args {
+			for _, v := range c.VarsOf(a) {
+				if !seen[v] {
+					seen[v] = true
+					out = append(out, v)
+				}
+			}
+		}
+	}
+	c.varsMemo[t.ID] = out
+	return out
 }
 
 // Hash is a 128-bit structural hash of t (same structure and variable names =>
